@@ -236,8 +236,8 @@ Definition apply_updates (cs : list Z) (ups : list (Z * Z)) : option (list Z) :=
     else
       let dels := map fst (filter (fun u => snd u =? 0) ups) in
       let upds := map fst (filter (fun u => 0 <? snd u) ups) in
-      let num_new := length (filter (fun k => negb (smem k cs)) upds) in
-      if Nat.eqb num_new 0 && Nat.eqb (length cs) (length dels) then None      (* would result in empty set *)
+      let num_new := List.length (filter (fun k => negb (smem k cs)) upds) in
+      if Nat.eqb num_new 0 && Nat.eqb (List.length cs) (List.length dels) then None      (* would result in empty set *)
       else if negb (forallb (fun k => smem k cs) dels) then None     (* failed to find validator to remove *)
       else Some (fold_left (fun a k => sdel k a) dels (fold_left (fun a k => sadd k a) upds cs))
   end.
@@ -282,7 +282,7 @@ Definition step (cfg : config) (s : state) (o : op) : state * res :=
       | None => (set_pend s (upd v k (st_pend s)), ROk)
       end
   | OPause v =>
-      let n := Z.of_nat (length (st_vals s)) in
+      let n := Z.of_nat (List.length (st_vals s)) in
       if (n <=? c_minvals cfg) || (n <=? 1) then (s, RRej) else
       match lookup v (st_vals s) with
       | None => (s, RRej)
